@@ -25,7 +25,7 @@ func VerifC11Step() {
 		verifapi.Assume(!lastSeen[i].After(now))
 		s.nodes[ids[i]] = memNode{Node: store.Node{ID: ids[i], LastSeen: lastSeen[i], IsHost: i > 0}, peers: map[store.NodeID]time.Time{}}
 	}
-	unknown := store.NodeID(verifapi.NodeID(4))
+	unknown := store.NodeID("00" + string(store.NodeID(verifapi.NodeID(0)))[2:]) // an id the pool has never seen (differs from every registered one)
 	// arbitrary tracked map of x: each other node tracked or not with an arbitrary recorded timestamp
 	tracked := make([]bool, nn)
 	trackedTs := make([]time.Time, nn)
